@@ -197,4 +197,100 @@ Theorem detector_constructors_wellformed :
 Proof. exact detector_constructors_wellformed_l. Qed.
 Print Assumptions detector_constructors_wellformed.
 
-(* hypotheses are satisfiable: a concrete geometry built by the constructor at the executable carrier *)
+
+(* ============ 5. factories: the detector covers the volume (parallel_beam_geometry) ============ *)
+(* every point of the rectangle [ax,bx] x [ay,by] projects, at every angle, inside the detector range
+   [-rho, rho] that parallel_beam_geometry chooses (rho = largest corner distance); in 3-d the second
+   detector coordinate is z itself and the range is [min_z, max_z] *)
+Theorem parallel_factory_covers_volume : forall (ax bx ay by_ x y : R) (a : R * R),
+  ax <= x <= bx -> ay <= y <= by_ -> on_circle a ->
+  let '(lo, hi) := par_factory_det_range sqrt ax bx ay by_ in
+  lo <= par2d_coord par2d_default a (x, y) <= hi.
+Proof. exact par2d_factory_covers. Qed.
+Print Assumptions parallel_factory_covers_volume.
+
+(* ---- cone_beam_geometry / helical_geometry: "its size is chosen such that the whole space is
+   covered with lines" -- FALSE for the flat detector the factory builds.  Full statement:
+     forall rho rs rd xn xt, 0 < rho < rs -> 0 <= rd -> xn^2 + xt^2 <= rho^2 ->
+       |fan_hit rs rd xn xt| <= cone_factory_halfwidth rho rs rd
+   ([fan_hit] = detector coordinate of the ray through the point, proved correct below).
+   Recorded finding C19/cone-beam-geometry-flat-coverage. *)
+Theorem fan_hit_is_the_ray_intersection : forall (rs rd : R) (a : R * R) (X : R * R), on_circle a ->
+  let g := fan_default rs rd in
+  let xt := dot2 X (fan_det_axis g a) in
+  let xn := dot2 X (mv2 (euler2 a) (f_s2d g)) in
+  rs + xn <> 0 ->
+  let u := fan_hit rs rd xn xt in
+  cross2 (sub2 (fan_detpoint g a (0, 0) (u, (1, 0))) (fan_src g a (0, 0)))
+         (sub2 X (fan_src g a (0, 0))) = 0.
+Proof. exact fan_hit_on_ray. Qed.
+Print Assumptions fan_hit_is_the_ray_intersection.
+
+Theorem cone_factory_coverage_refuted :
+  exists rho rs rd xn xt : R,
+    0 < rho < rs /\ 0 <= rd /\ xn * xn + xt * xt <= rho * rho /\
+    cone_factory_halfwidth rho rs rd < fan_hit rs rd xn xt.
+Proof. exact cone_factory_coverage_refuted_l. Qed.
+Print Assumptions cone_factory_coverage_refuted.
+
+(* what does hold: the far half of the disc is covered ... *)
+Theorem cone_factory_coverage_partial : forall rho rs rd xn xt : R,
+  0 < rho < rs -> 0 <= rd -> xn * xn + xt * xt <= rho * rho -> 0 <= xn ->
+  - cone_factory_halfwidth rho rs rd <= fan_hit rs rd xn xt <= cone_factory_halfwidth rho rs rd.
+Proof. exact cone_factory_coverage_partial_l. Qed.
+Print Assumptions cone_factory_coverage_partial.
+
+(* ... and the half width W = (rs + rd) rho / sqrt(rs^2 - rho^2) (stated with squares) covers all of it
+   (this is the repair in proposed_fixes/C19_cone-beam-geometry-flat-coverage.diff) *)
+Theorem cone_factory_coverage_repaired : forall rho rs rd xn xt : R,
+  0 < rho < rs -> 0 <= rd -> xn * xn + xt * xt <= rho * rho ->
+  let u := fan_hit rs rd xn xt in
+  u * u * (rs * rs - rho * rho) <= (rs + rd) * (rs + rd) * (rho * rho).
+Proof. exact cone_factory_coverage_repaired_l. Qed.
+Print Assumptions cone_factory_coverage_repaired.
+
+(* ===================== 6. slicing by angle index (__getitem__) ===================== *)
+(* Full statement "geom[i:j] has the same det_pos_init / translation / detector as geom" is FALSE for
+   the current Parallel2dGeometry.__getitem__ whenever the translation is nonzero (it passes the
+   already translated det_pos_init together with the translation).  Recorded finding
+   C19/parallel2d-getitem-translation-twice.  [par2d_getitem false] is the current code,
+   [par2d_getitem true] the repaired one (the harness measures which one /repo shows). *)
+Theorem parallel2d_slice_refuted : forall (pos : R * R) (ax : option (R * R)) (tr : R * R) (g g' : par2d),
+  mk_par2d sqrt pos ax tr = Some g -> par2d_getitem sqrt false g ax = Some g' ->
+  p2_pos g' = add2 (p2_pos g) tr /\ (tr <> (0, 0) -> p2_pos g' <> p2_pos g).
+Proof. exact par2d_getitem_current_l. Qed.
+Print Assumptions parallel2d_slice_refuted.
+
+Theorem parallel2d_slice_repaired : forall (pos : R * R) (ax : option (R * R)) (tr : R * R) (g : par2d),
+  mk_par2d sqrt pos ax tr = Some g -> par2d_getitem sqrt true g ax = Some g.
+Proof. exact par2d_getitem_fixed_l. Qed.
+Print Assumptions parallel2d_slice_repaired.
+
+(* =========== non-vacuity: the hypotheses above are met by objects the code builds =========== *)
+From Coq Require Import QArith.
+From Verif Require Import C19.Corr.
+(* the factory's default geometries are what the constructors return (executed at Q) *)
+Example default_geometries_are_constructed :
+  (match mk_par2d Qsqrt (0, 1)%Q None (0, 0)%Q with
+   | Some g => Qeq_bool (fst (p2_pos g)) 0 && Qeq_bool (snd (p2_pos g)) 1 &&
+               match p2_det g with Flat1 (a0, a1) => Qeq_bool a0 1 && Qeq_bool a1 0 | _ => false end
+   | None => false end) = true /\
+  (match mk_fan Qsqrt 5 5 None (0, 1)%Q None (0, 0)%Q with
+   | Some g => Qeq_bool (fst (f_s2d g)) 0 && Qeq_bool (snd (f_s2d g)) 1 &&
+               match f_det g with Flat1 (a0, a1) => Qeq_bool a0 1 && Qeq_bool a1 0 | _ => false end
+   | None => false end) = true.
+Proof. split; vm_compute; reflexivity. Qed.
+(* slicing a translated Parallel2dGeometry succeeds and (current code) moves det_pos_init *)
+Example slice_instance :
+  (match mk_par2d Qsqrt (3, 4)%Q None (1, 2)%Q with
+   | Some g => match par2d_getitem Qsqrt false g None, par2d_getitem Qsqrt true g None with
+               | Some g1, Some g2 => Qeq_bool (fst (p2_pos g1)) 5 && Qeq_bool (snd (p2_pos g1)) 8 &&
+                                     Qeq_bool (fst (p2_pos g2)) 4 && Qeq_bool (snd (p2_pos g2)) 6
+               | _, _ => false end
+   | None => false end) = true.
+Proof. vm_compute. reflexivity. Qed.
+(* a generic unit axis and circle point: the rotation is orthonormal (executed) *)
+Example rodrigues_instance :
+  let m := axis_rot ((3 # 13), (4 # 13), (12 # 13))%Q ((3 # 5), (4 # 5))%Q in
+  (fm3 (mm3 (tr3 m) m)) = [1; 0; 0; 0; 1; 0; 0; 0; 1]%Q /\ det3 m = 1%Q.
+Proof. vm_compute. split; reflexivity. Qed.
